@@ -188,6 +188,8 @@ class Transportation1dSorter {
   std::vector<int> convertAssignmentBack(const std::vector<int> &a) const;
 
  private:
+  /// Number of sources of the original problem (including empty ones)
+  int nbSources;
   std::vector<int> srcOrder;
   std::vector<int> snkOrder;
 };
